@@ -32,6 +32,11 @@ type gateCtl struct {
 	stopped chan struct{}
 	points  int
 	polls   int
+	// scenarios may ask the controller to sit on one quiescent point for a while before it
+	// releases anything (a pool whose queue stays full for that long must simply stay blocked)
+	holdAt  int
+	holdFor time.Duration
+	held    bool
 }
 
 func newGateCtl(rt *scriptRT, rel []int) *gateCtl {
@@ -117,6 +122,11 @@ func (g *gateCtl) loop() {
 			// a second look: still quiescent with the same calls in flight
 			b := g.snapshot()
 			if strict2, _ := quiescent(buf); strict2 && sameInts(a, b) && atomic.LoadInt32(&gateHold) == 0 {
+				if g.holdFor > 0 && !g.held && g.points == g.holdAt {
+					g.held = true
+					time.Sleep(g.holdFor)
+					continue // look again: nothing may have moved
+				}
 				g.release(b)
 			}
 			continue
@@ -131,6 +141,11 @@ func (g *gateCtl) loop() {
 		time.Sleep(25 * time.Millisecond)
 		b := g.snapshot()
 		if _, sig2 := quiescent(buf); sig2 == sig1 && sameInts(a, b) && atomic.LoadInt32(&gateHold) == 0 {
+			if g.holdFor > 0 && !g.held && g.points == g.holdAt {
+				g.held = true
+				time.Sleep(g.holdFor)
+				continue
+			}
 			forcedReleases++
 			g.release(b)
 		}
